@@ -614,8 +614,10 @@ def gen_bitmap(rng, tier):
             lo, hi = rng_pair(1.0)
             toks.append(f"addr:{hx(lo)}:{hx(hi)}")
         elif style == 2:
-            toks.append(f"add:{hx(val())}")
             lo, hi = rng_pair(1.0)
+            # members placed on and around the ends of the long range that follows
+            for v in rng.sample([max(0, lo - 1), lo, min(65535, lo + 1), max(0, hi - 1), hi, min(65535, hi + 1), val()], 3):
+                toks.append(f"add:{hx(v)}")
             toks.append(f"addr:{hx(lo)}:{hx(hi)}")   # long range on a non-empty set
         elif style == 3:
             toks.append(f"b.addr:0:{hx(rng.choice([100, 4096, 4097, 6000]))}")
@@ -699,4 +701,64 @@ def gen_dim(rng, tier):
                 steps.append(f"set:{hx(r)}:{hx(c)}:{hx(v)}")
         init = rng.choice(["0", "f", "r" + hx(rng.getrandbits(60))])
         ops.append(f"dim.cells rows={hx(rows)} cols={hx(cols)} w={w} init={init} " + " ".join(steps))
+    return ops
+
+
+# ---------------------------------------------------------------- C07 float
+def dbits(x):
+    import struct
+    return struct.unpack("<Q", struct.pack("<d", x))[0]
+
+
+def gen_float(rng, tier):
+    ops = []
+    pool = [0, 1 << 63, 1, (1 << 52) - 1, 1 << 52, (1 << 52) + 1, 0x7FEFFFFFFFFFFFFF, 0x7FF0000000000000,
+            0xFFF0000000000000, 0x7FF8000000000001, 0x7FF0000000000001, 0xFFFFFFFFFFFFFFFF, dbits(1.0), dbits(-1.0),
+            dbits(1.9999999999), dbits(0.1), dbits(3.141592653589793), dbits(1e-200), dbits(1e200), dbits(1e-308),
+            dbits(1e308), dbits(-2.5e-7), dbits(123456.789), 0x3FFFFFFFFFFFFFFF, 0x400FFFFFFFFFFFFF, 0x7FEFFFFFFFFFFFFE,
+            0x001FFFFFFFFFFFFF, 0x3FEFFFFFFFFFFFFF]
+
+    def rnd():
+        c = rng.random()
+        if c < 0.3:
+            return rng.choice(pool)
+        s = rng.getrandbits(1) << 63
+        if c < 0.5:
+            # mantissas that carry on rounding: all ones in the top k fraction bits
+            k = rng.choice([4, 10, 23, 30, 52])
+            fr = ((1 << 52) - 1) & ~((1 << (52 - k)) - 1) | rng.getrandbits(max(0, 52 - k))
+            e = rng.choice([1, 2, 1022, 1023, 1024, 2045, 2046, rng.randint(1, 2046)])
+            return s | (e << 52) | fr
+        if c < 0.7:
+            e = rng.randint(1023 - 30, 1023 + 30)
+        else:
+            e = rng.randint(1, 2046)
+        return s | (e << 52) | rng.getrandbits(52)
+
+    nper = 6 if tier == "quick" else 200
+    for p in range(4):
+        for m in range(3):
+            ops.append(f"float.rt p={p} m={m} 0")
+            ops.append(f"float.rt p={p} m={m} {explicit(pool)}")
+            for _ in range(nper):
+                n = rng.choice([1, 2, 3, 7, 8, 9, 16, 17, 40])
+                vals = [rnd() for _ in range(n)]
+                if rng.random() < 0.3:
+                    # same magnitude: COMMON_EXPONENT's typical data
+                    e = rng.randint(1, 2046)
+                    vals = [(v & ~(0x7FF << 52)) | (min(2046, max(1, e + rng.randint(-3, 3))) << 52) for v in vals]
+                ops.append(f"float.rt p={p} m={m} {explicit(vals)}")
+            if tier != "quick":
+                ops.append(f"float.rt p={p} m={m} {explicit([rnd() for _ in range(3000)])}")
+    thr = [dbits(2.0 ** -23), dbits(2.0 ** -10), dbits(2.0 ** -4)]
+    es = set()
+    for t in thr:
+        es |= {t - 1, t, t + 1}
+    es |= {dbits(x) for x in (1e-10, 1e-9, 1e-12, 1.19e-7, 5e-4, 6e-4, 9.7e-4, 9.8e-4, 0.03, 0.04, 0.0624, 0.0626, 0.5, 0.999)}
+    for _ in range(40 if tier == "quick" else 3000):
+        es.add(dbits(10 ** rng.uniform(-12, -0.001)))
+    for e in sorted(es):
+        m = rng.randrange(3)
+        vals = [rnd() for _ in range(rng.choice([1, 5, 12]))]
+        ops.append(f"float.auto e={hx(e)} m={m} {explicit(vals)}")
     return ops
